@@ -96,6 +96,8 @@ class InlineHooks(lookx.VH):
         meth, free, consts = _index(self.ctx)
         if segs[-1] in self.NO_INLINE or p in self.NO_INLINE:
             return NotImplemented
+        if len(segs) >= 2 and segs[-1] == "from" and len(args) == 1 and segs[-2] in ("Word", "u8", "u16", "u32", "u64", "usize", "i32", "i64", "u128"):
+            return args[0]          # a lossless integer widening of a symbolic value
         if len(segs) >= 2 and segs[-2] in ("HashMap", "BTreeMap", "HashSet", "BTreeSet") and segs[-1] in ("new", "default", "with_capacity"):
             return ("map", {})
         if segs[-1] == "default" and not args and (len(segs) == 1 or segs[-2] == "Default"):
